@@ -271,18 +271,20 @@ def confirm(ctx, prop, b, d, rej, case_by_id, grouped):
         if any(v[0] == key for v in ctx.violations):
             continue
         case = case_by_id[rec["case"]]
-        again = execute(b, [case], d, "again")
-        tp = os.path.join(d, "again.ndjson")
-        with open(tp, "w") as f:
-            f.write('{"ev":"newcase","case":%d}\n' % case["id"])
-            f.write("\n".join(again[case["id"]]) + "\n")
-        sub = vlib.Ctx(ctx.prop, ctx.tier, ctx.seed)
-        acc, rej2 = vlib.validate_trace(sub, "BlockAPI_Trace", tp, cfg="BlockAPI_Trace_" + prop, shards=1)
+        rej2 = None
+        for attempt in range(20 if case.get("par") else 1):
+            again = execute(b, [case], d, "again")
+            tp = os.path.join(d, "again.ndjson")
+            with open(tp, "w") as f:
+                f.write('{"ev":"newcase","case":%d}\n' % case["id"])
+                f.write("\n".join(again[case["id"]]) + "\n")
+            sub = vlib.Ctx(ctx.prop, ctx.tier, ctx.seed)
+            acc, rej2 = vlib.validate_trace(sub, "BlockAPI_Trace", tp, cfg="BlockAPI_Trace_" + prop, shards=1)
+            if rej2:
+                break
         if not rej2:
-            if case.get("par"):
-                ctx.notes.append("schedule-dependent rejection not reproduced: %s" % key)
-                raise vlib.MachineryFault("rejection not reproducible (concurrent case): %s" % rj["line"][:300])
-            raise vlib.MachineryFault("rejection not reproducible: %s" % rj["line"][:300])
+            ctx.unreproducible("%s: %s" % (key, rj["line"]))
+            continue
         rec2 = json.loads(rej2[0]["line"])
         for k in ("src", "block", "seqs"):
             if k in rec2 and len(rec2[k]) > 400:
